@@ -90,16 +90,16 @@ def gen_cases(tier, seed):
         probes = int(rng.choice([0, 2]))
         dev = zoo.gen_device(rng, n_terminals=2 if probes else 0, probes=probes, size="tiny", smooth=0, gamma=1.0)
         dt = 0.002
-        o = dict(solve_time=N * dt - dt / 2, dt_init=dt, dt_max=0.1, adaptive=False, save_every=c["k"], field_units="mT", current_units="uA", output=c["out"])
-        if c["therm"]:
-            o["skip_time"] = 3 * dt - dt / 2
+        o = dict(solve_time=N * dt - dt / 2, dt_init=dt, dt_max=0.1, adaptive=False, save_every=c["k"], field_units="mT", current_units="uA", output=c["out"],
+                 auto_dt={"steps": N, "frac": 0.3, "exact": True, "therm_steps": 3 if c["therm"] else 0})
         drive = {"A": {"kind": "uniform", "B": 0.05}}
         cases.append({"mode": "hooks", "combo": c, "device": dev, "options": o, "drive": drive, "N": N, "seed": int(rng.integers(1 << 30)), "cost": 30})
     if tier == "thorough":
         for c in combos[:6]:
             dev = zoo.gen_device(rng, n_terminals=0, probes=0, size="tiny", smooth=0, gamma=1.0)
             dt = 0.002
-            o = dict(solve_time=4 * dt - dt / 2, dt_init=dt, dt_max=0.1, adaptive=False, save_every=c["k"], field_units="mT", current_units="uA", output=c["out"])
+            o = dict(solve_time=4 * dt - dt / 2, dt_init=dt, dt_max=0.1, adaptive=False, save_every=c["k"], field_units="mT", current_units="uA", output=c["out"],
+                     auto_dt={"steps": 4, "frac": 0.3, "exact": True})
             cases.append({"mode": "lines", "combo": c, "device": dev, "options": o, "drive": {"A": {"kind": "uniform", "B": 0.05}}, "N": 4, "seed": int(rng.integers(1 << 30)), "cost": 200})
     return cases
 
@@ -371,6 +371,7 @@ def run_case(spec):
     dev, why = zoo.try_build_device(spec["device"])
     if dev is None:
         return {"violations": [], "counters": {"refused_mesh": 1}, "classes": ["refused"], "nontrivial": False}
+    spec = sim.resolve_auto_dt(spec, dev)
     combo = spec["combo"]
     N = spec["N"]
     V, C = [], {}
